@@ -239,7 +239,7 @@ def explore(ctx):
     cases, meta = [], []
     for i in range(ctx.budget(30, 200)):
         lib = ["ufoLib2", "defcon"][i % 2]
-        frac = rng.random() < 0.4
+        frac = i % 3 != 2            # (deterministic: fractional values x rounding x both libraries all occur in every run)
         base = dsgen.base_master(rng, int_coords=not frac)
         masters = [base, dsgen.perturb(rng, base, 1)]
         if frac:
@@ -249,7 +249,7 @@ def explore(ctx):
         ds, fonts = dsgen.make_designspace(rng, masters, lib)
         names = [g["name"] for g in base["glyphs"]]
         kern_keys = sorted(set(base["kerning"]) | set(masters[1]["kerning"]))
-        rnd = rng.random() < 0.5
+        rnd = i % 4 < 2
         before = [snap.font_snapshot(f) for f in fonts]
         try:
             inst = Instantiator.from_designspace(ds, round_geometry=rnd)
